@@ -201,6 +201,12 @@ def run(tier: str) -> int:
             bases.append((f'example:{n}', last_wins(ex[n])))
     for tag, text, p in gen.grid(seed() * 31 + 12, 14 if tier == 'quick' else 80):
         bases.append((tag, last_wins(text)))
+    # optional modules switched on implicitly (by the mere presence of `AddOn ...` / `S-DAC-GT ...` lines) next to explicit ones:
+    # where those lines stand relative to each other must not matter
+    if 'example1_addons' in ex:
+        implicit = '\n'.join(ln for ln in ex['example1_addons'].splitlines() if not ln.strip().startswith('Do AddOn Calculations'))
+        bases.append(('implicit:addons+sdacgt', last_wins(implicit + '\nDo S-DAC-GT Calculations, True\nS-DAC-GT CAPEX, 1400\nS-DAC-GT OPEX, 60\nS-DAC-GT CAPEX Multiplier, 1.1\n')))
+        bases.append(('implicit:addons', last_wins(implicit + '\n')))
     # list-style parameters (`Gradients, g1, g2, ...`, `Thicknesses, ...`) are parsed from the raw line, not from the value field
     for k in range(3 if tier == 'quick' else 12):
         p = gen.base(rng, 4, 1, rng.choice([1, 2]), rng.choice([1, 2, 3]))
@@ -220,9 +226,13 @@ def run(tier: str) -> int:
             vt = f'{tag}|{st}' if f'{tag}|{st}' not in groups[tag] else f'{tag}|{st}2'
             jobs.append((vt, render(params, rng, st)))
             groups[tag].append(vt)
-        for k in range(nperm):
+        for k in range(nperm if not tag.startswith('implicit:') else max(nperm, 8)):
             jobs.append((f'{tag}|perm{k}', render(permute(params, rng), rng, rng.choice(['plain', 'decorate', 'duplicate']))))
             groups[tag].append(f'{tag}|perm{k}')
+        if tag.startswith('implicit:'):      # the optional-module lines first, then everything else
+            front = [x for x in params if x[0].startswith(('S-DAC-GT', 'Do S-DAC-GT'))]
+            jobs.append((f'{tag}|modules_first', render(front + [x for x in params if x not in front], rng, 'plain')))
+            groups[tag].append(f'{tag}|modules_first')
         if len(params) > 3:
             cut = rng.randint(1, len(params) - 1)
             head, tail = params[:cut], params[cut:]
